@@ -503,6 +503,56 @@ def _walk_arm_after(F, rep, variant, ords, after):
     return outs
 
 
+def rule_r4b(F, rep):
+    R = rep.rule("C08.R4b", "array ordering starts lexicographically: with both arrays empty the result is Equal, an empty "
+                 "array is Less than a non-empty one and a non-empty one Greater than an empty one; only two non-empty arrays "
+                 "go on to compare their first elements")
+    run = F.fn("<%s>::run" % em.EVAL)
+    body = run.body
+    P = prov.Prov(F, body) if False else None
+    for le in (0, 1):
+        for re_ in (0, 1):
+            def hook(w, bb, t, env, args, le=le, re_=re_):
+                n = callee_name(t) or ""
+                if n in ("<[T]>::is_empty", "<alloc::vec::Vec>::is_empty"):
+                    i = env.get("#ie", 0)
+                    env["#ie"] = i + 1
+                    return (le, re_)[i] if i < 2 else None
+                if n.endswith("core::cmp::Ord>::cmp") or n == "core::cmp::Ord::cmp":
+                    vals = []
+                    for a in args[:2]:
+                        if isinstance(a, tuple) and a[0] == "ref":
+                            a = env.get(a[1])
+                        vals.append(a)
+                    if all(isinstance(v, int) for v in vals):
+                        o = "Less" if vals[0] < vals[1] else ("Greater" if vals[0] > vals[1] else "Equal")
+                        return ("var", em.ORDERING, o)
+                return None
+            outs = em.walk_run_arm(F, rep, "CompareValue", values=["Array", "Array"], want_calls=False, extra_hook=hook)
+            res = set()
+            for o in outs:
+                if o[0].startswith("diverge"):
+                    continue
+                res.add((tuple(pushes(o, "cmp_ord_stack")),
+                         tuple(x if not isinstance(x, tuple) else x[0] for x in pushes(o, "state_stack") if (x if not isinstance(x, tuple) else x[0]) != "TraceItem")))
+            if le and re_:
+                exp = {(("Equal",), ())}
+            elif le:
+                exp = {(("Less",), ())}
+            elif re_:
+                exp = {(("Greater",), ())}
+            else:
+                exp = {((), ("CompareArray", "CompareValue", "DoThunk", "DoThunk"))}
+            ok = res == exp
+            rep.ob(R, "CompareValue|arrays|lhs_empty=%d|rhs_empty=%d" % (le, re_), ok,
+                   {"lhs_empty": le, "rhs_empty": re_, "outcomes": sorted(map(str, res))})
+            if not ok:
+                rep.violation(R, "CompareValue|arrays|%d%d" % (le, re_),
+                              "comparing arrays with (lhs empty=%d, rhs empty=%d) yields %s, lexicographic order requires %s"
+                              % (le, re_, sorted(map(str, res)), sorted(map(str, exp))), run.loc)
+    # the first is_empty asked is the left operand's: the two values are popped rhs first, lhs second
+
+
 def rule_r5(F, rep):
     from . import pushgraph, cfg
     R = rep.rule("C08.R5", "object equality looks only at visible fields: in the equality states the field names of both "
@@ -570,6 +620,7 @@ def run(F, rep, tier):
     rule_r2(F, rep)
     rule_r3(F, rep)
     rule_r4(F, rep)
+    rule_r4b(F, rep)
     rule_r5(F, rep)
     rep.assume("reflexivity, symmetry and transitivity over values are consequences of R1-R4 plus C06 (no NaN) "
                "and are not themselves decided; object equality uses get_visible_fields_order on both sides (C07)")
